@@ -1,5 +1,4 @@
 import Arimaa.Impl.Engine
-import Arimaa.Lemmas.GenAgree
 
 /-!
 Pointwise bit library.  `bit x i` is our own accessor (keeps `simp` away from `getElem` normal
